@@ -70,7 +70,8 @@ Inductive op :=
 | OSetLength (i : nat) (n : nat)
 | OListWrite (k : nat) (idx : nat) (v : val)
 | OListAppend (k : nat) (v : val)
-| OListTruncate (k : nat).                 (* l[k] = l[k][:0] : the buffer is reused *)
+| OListTruncate (k : nat)                  (* l[k] = l[k][:0] : the buffer is reused *)
+| OSetElem (i : nat) (idx : nat) (v : val). (* v[i].GetByIndex(idx).SetAsX(host): an element of v[i]'s own list is set in place *)
 
 Definition step (m : mach) (o : op) : mach :=
   match o with
@@ -82,4 +83,5 @@ Definition step (m : mach) (o : op) : mach :=
   | OListWrite k idx v => if Nat.ltb idx (length (lst m k)) then set_lst m k (upd (lst m k) idx v) else m
   | OListAppend k v => set_lst m k (lst m k ++ [v])
   | OListTruncate k => set_lst m k []
+  | OSetElem i idx v => match reg m i with Arr l => if Nat.ltb idx (length l) then set_reg m i (Arr (set_nth l idx v)) else m | _ => m end
   end.
